@@ -15,11 +15,42 @@ Floats travel as JSON numbers (Python's repr round-trips doubles exactly; float3
 to the double with the same value)."""
 import importlib
 import json
+import os
 import sys
+import warnings
 
 import numpy as np
+# third-party packages pydl itself imports: loaded BEFORE the snapshot so that their own import-time effects
+# (astropy registers warning filters) are not attributed to pydl
+import scipy.signal  # noqa: F401,E402
+import scipy.linalg  # noqa: F401,E402
+import astropy  # noqa: F401,E402
+import astropy.io.fits  # noqa: F401,E402
+import astropy.utils.data  # noqa: F401,E402
+with warnings.catch_warnings():
+    warnings.simplefilter('ignore')
+    import astropy.tests.runner  # noqa: F401,E402
 
-import pydl
+
+def global_state():
+    """process-global settings a library must not change behind the user's back"""
+    return {'np.geterr': dict(np.geterr()), 'np.printoptions': repr(sorted(np.get_printoptions().items())),
+            'warnings.filters': [repr(f) for f in warnings.filters], 'os.environ': dict(os.environ),
+            'np.errcall': repr(np.geterrcall())}
+
+
+def state_diff(a, b):
+    return sorted(k for k in a if a[k] != b[k])
+
+
+STATE_BEFORE_IMPORT = global_state()
+
+# this process is a FRESH interpreter; pydl is imported the way a user does it
+import pydl  # noqa: E402
+from pydl import smooth as _s, median as _m, uniq as _u, rebin as _r  # noqa: F401,E402
+
+STATE_AFTER_IMPORT = global_state()
+IMPORT_CHANGED = state_diff(STATE_BEFORE_IMPORT, STATE_AFTER_IMPORT)
 
 # the two import routes users have: the names re-exported by the package (`from pydl import smooth, ...`) and the
 # functions of the defining modules (`from pydl.smooth import smooth`).  Every call names its route; the same call
@@ -30,20 +61,42 @@ ROUTES = {
 }
 
 JUNK = 77
+STATE_RUN = None
 
 
 def err(e):
     return {'err': type(e).__name__, 'msg': str(e)[:160]}
 
 
+TOKENS = {'inf': float('inf'), '-inf': float('-inf'), 'nan': float('nan')}
+
+
+def detok(v):
+    """non-finite samples travel as the strings 'inf', '-inf', 'nan'"""
+    if isinstance(v, list):
+        return [detok(e) for e in v]
+    return TOKENS[v] if isinstance(v, str) else v
+
+
+def tok(v):
+    if isinstance(v, list):
+        return [tok(e) for e in v]
+    if isinstance(v, float) and (v != v or v in (float('inf'), float('-inf'))):
+        return 'nan' if v != v else ('inf' if v > 0 else '-inf')
+    return v
+
+
 def make_array(vals, dtype, layout):
     """-> (array handed to pydl, owner buffer whose bytes must not change)"""
-    a = np.array(vals, dtype=dtype)
+    a = np.array(detok(vals), dtype=dtype)
     if layout in (None, 'c'):
         return a, a
     if layout == 'ro':
         a.flags.writeable = False
         return a, a
+    if layout == 'be':                 # non-native byte order (what astropy.io.fits hands out)
+        b = a.astype(a.dtype.newbyteorder('>' if sys.byteorder == 'little' else '<'))
+        return b, b
     if layout == 'strided':            # every second element of a longer buffer, along the last axis
         shp = list(a.shape)
         shp[-1] *= 2
@@ -64,28 +117,48 @@ def make_array(vals, dtype, layout):
 
 def arr_out(r):
     a = np.asarray(r)
-    return {'ok': a.tolist(), 'dtype': str(a.dtype), 'shape': list(a.shape), 'is_ndarray': isinstance(r, np.ndarray)}
+    return {'ok': tok(a.tolist()), 'dtype': a.dtype.name, 'native': bool(a.dtype.isnative), 'shape': list(a.shape), 'is_ndarray': isinstance(r, np.ndarray)}
 
 
 def invoke(c, x, idx=None, route='package'):
     """one pydl call on the array object x -> (raw result, serialised result)"""
     f = c['f']
     smooth, median, uniq, rebin = (ROUTES[route][n] for n in ('smooth', 'median', 'uniq', 'rebin'))
+    style = c.get('argstyle')
     if f == 'smooth':
-        r = smooth(x, c['w'], edge_truncate=c['et']) if c['et'] is not None else smooth(x, c['w'])
+        w, et = c['w'], c['et']
+        if style == 'npint':
+            w = np.int64(w)
+        elif style == 'npint32':
+            w = np.int32(w)
+        elif style == 'intflag' and et is not None:
+            et = int(et)
+        elif style == 'npbool' and et is not None:
+            et = np.bool_(et)
+        elif style == 'positional' and et is not None:
+            r = smooth(x, w, et)
+            return r, arr_out(r)
+        r = smooth(x, w, edge_truncate=et) if et is not None else smooth(x, w)
         return r, arr_out(r)
     if f == 'median':
-        r = median(x, even=True) if c['even'] else median(x)
+        ev = {'intflag': 1, 'npbool': np.bool_(True)}.get(style, True)
+        if style == 'explicit':
+            r = median(x, width=None, axis=None, even=bool(c['even']))
+        else:
+            r = median(x, even=ev) if c['even'] else median(x)
         if np.ndim(r) != 0:
             o = arr_out(r)
             o['ndim0'] = False
             return r, o
-        return r, {'ok': float(r), 'ndim0': True}
+        return r, {'ok': tok(float(r)), 'ndim0': True}
     if f == 'median_axis':
         r = median(x, axis=c['axis'])
         return r, arr_out(r)
     if f == 'medfilt':
-        r = median(x, width=c['w'])
+        w = c['w']
+        if style in ('npint', 'npint32'):
+            w = (np.int64 if style == 'npint' else np.int32)(w)
+        r = median(x, width=w, axis=None, even=False) if style == 'explicit' else median(x, width=w)
         return r, arr_out(r)
     if f == 'uniq':
         r = uniq(x) if idx is None else uniq(x, idx)
@@ -93,7 +166,22 @@ def invoke(c, x, idx=None, route='package'):
         o['ok'] = [int(v) for v in np.asarray(r).ravel()]
         return r, o
     if f == 'rebin':
-        r = rebin(x, tuple(c['d']), sample=True) if c['sample'] else rebin(x, tuple(c['d']))
+        d = tuple(c['d'])
+        sm = True
+        if style == 'list':
+            d = list(c['d'])
+        elif style == 'npint':
+            d = tuple(np.int64(v) for v in c['d'])
+        elif style == 'nparray':
+            d = np.array(c['d'], dtype=np.int64)
+        elif style == 'intflag':
+            sm = 1
+        elif style == 'npbool':
+            sm = np.bool_(True)
+        if style == 'explicit':
+            r = rebin(x, d, sample=bool(c['sample']))
+        else:
+            r = rebin(x, d, sample=sm) if c['sample'] else rebin(x, d)
         return r, arr_out(r)
     raise ValueError('BadCall')
 
@@ -124,8 +212,11 @@ def call(c):
         raw, o = None, err(e)
     o['input_unchanged'] = bool(owner.tobytes() == before and (idx_owner is None or idx_owner.tobytes() == idx_before))
     o['aliases_input'] = bool(isinstance(raw, np.ndarray) and np.shares_memory(raw, owner))
+    changed = state_diff(STATE_RUN, global_state())
+    if changed:
+        o['state_changed'] = changed
     # the same call on a read-only array with the same values
-    x2 = np.array(c['x'], dtype=dtype)
+    x2 = np.array(detok(c['x']), dtype=dtype)
     x2.flags.writeable = False
     idx2 = None
     if idx is not None:
@@ -140,7 +231,7 @@ def call(c):
     if not o['readonly_ok']:
         o['readonly_result'] = {k: o2.get(k) for k in ('ok', 'err', 'msg') if k in o2}
     # the same call through the other import route, on a fresh array with the same values
-    x3 = np.array(c['x'], dtype=dtype)
+    x3 = np.array(detok(c['x']), dtype=dtype)
     idx3 = np.array(c['idx'], dtype=c.get('idx_dtype', 'i8')) if idx is not None else None
     try:
         _, o3 = invoke(c, x3, idx3, other)
@@ -159,6 +250,20 @@ def history(c):
     before = owner.tobytes()
     steps = []
     for k, st in enumerate(c['steps']):
+        if st['f'] == 'mutate':
+            # the CALLER changes the array in place between two calls (x[...] = new values / x += delta);
+            # later steps are judged on the values the array then holds
+            try:
+                new = np.array(detok(st['x']), dtype=x.dtype)
+                if st.get('how') == 'iadd':
+                    x += (new - x)
+                else:
+                    x[...] = new
+                before = owner.tobytes()
+                steps.append({'mutated_by_caller': True, 'ok': tok(np.asarray(x).tolist())})
+            except Exception as e:  # noqa: BLE001
+                steps.append(err(e))
+            continue
         # the steps of one history alternate between the two import routes
         route = ('package', 'module')[(k + (c.get('route', 'package') == 'module')) % 2]
         try:
@@ -169,14 +274,26 @@ def history(c):
         o['input_unchanged'] = bool(owner.tobytes() == before)
         o['aliases_input'] = bool(isinstance(raw, np.ndarray) and np.shares_memory(raw, owner))
         o['readonly_ok'] = True
+        changed = state_diff(STATE_RUN, global_state())
+        if changed:
+            o['state_changed'] = changed
         steps.append(o)
     return {'steps': steps}
 
 
 def main():
+    global STATE_RUN
     calls = json.load(sys.stdin)
-    with np.errstate(all='ignore'):
-        out = {'pydl_file': pydl.__file__, 'numpy': np.__version__, 'results': [call(c) for c in calls]}
+    # numpy's floating-point error handling is left EXACTLY as `import pydl` left it (no np.errstate here: the
+    # IEEE results for non-finite / overflowing data are part of what is observed); RuntimeWarnings are silenced
+    # through the warnings module only, which does not change what the arithmetic returns
+    warnings.simplefilter('ignore')
+    STATE_RUN = global_state()
+    out = {'pydl_file': pydl.__file__, 'numpy': np.__version__, 'import_changed': IMPORT_CHANGED,
+           'state_before_import': {k: STATE_BEFORE_IMPORT[k] for k in IMPORT_CHANGED if k != 'os.environ'},
+           'state_after_import': {k: STATE_AFTER_IMPORT[k] for k in IMPORT_CHANGED if k != 'os.environ'},
+           'results': [call(c) for c in calls]}
+    out['state_changed_at_end'] = state_diff(STATE_RUN, global_state())
     json.dump(out, sys.stdout)
 
 
